@@ -10,3 +10,7 @@ SPEC = dc.spec(
                "correspondence compares it with the real code at every crash prefix.",
     level_note="No axioms.  Section variable: clen (positive).  Modelled not verified: see C03.",
     design_ref="§6 C02", rule=dc.RULE)
+
+
+def run(ctx, replay):
+    return dc.run_check(SPEC, ctx, replay)
